@@ -162,4 +162,12 @@ def check(ctx: Ctx) -> str:
     lx = repo.func("environment:Environment.lexer")
     ctx.check(lx.decorators() == ["property"] and "get_lexer(self)" in ast.unparse(lx.node), "lexer:property", "environment:Environment.lexer", "lexer resolved per access", "Environment.lexer must be a plain property returning get_lexer(self)", lx.loc())
     ctx.check("rv.__dict__.update(self.__dict__)" in src and "object.__new__(self.__class__)" in src, "overlay:copy", "environment:Environment.overlay", "shallow copy of the parent", "the overlay must start as a copy of the parent's attributes", ov.loc())
+    # a line statement and the same tag written as a block on its own line are equivalent only
+    # because lstrip_blocks / trim_blocks strip exactly the line's indentation and newline:
+    # the tokeniter rules (shared with C11 / C12 / C39) are part of this property
+    from ..lexrules import end_rule_siblings
+    from ..lexrules import lstrip_rules
+
+    lstrip_rules(ctx, "R7")
+    end_rule_siblings(ctx, "R8")
     return __doc__ or ""
